@@ -13,11 +13,13 @@ Glue around the modelled core of `PathLengthDirectInfSampler` (C15, round 10):
 A state is either flat (non-compound space: the reals of the whole state) or a list of components (compound space:
 `CompoundState::components[i]`, each as its reals — an SO(2)/SO(3) component is opaque, it is only ever copied).
 
-As coded (finding F450) the case "compound state space with exactly one subspace, which is R^n" sets
+Before /repo fix 1d61cd7e5 (finding F450) the case "compound state space with exactly one subspace, which is R^n" sets
 `informedIdx_ = uninformedIdx_ = 0` and still treats the space as having an uninformed part: `createFullState` writes the
 informed vector into component 0 and then OVERWRITES it with a uniform sample of the same subspace; `getInformedMeasure`
-multiplies by that subspace's measure.  `…G fix` selects the repaired glue (notes/C15-fix-F450.diff: no uninformed part when
-both indices coincide); the check selects it from the source of the tree under test.
+multiplied by that subspace's measure.  `…G fix` selects the glue of the tree under test (`fix = true`: the current code,
+no uninformed part when both indices coincide; `fix = false`: the code before 1d61cd7e5, kept as `…Old` for the witness).
+`classifyG strict`: `strict = true` is the repair proposed for F451 (an SE-typed compound must have one R^n AND one SO(n)
+subspace); the unchanged code is `strict = false`.
 -/
 namespace OmplModel.Phs
 
@@ -58,11 +60,12 @@ inductive CtorErr where
   | notTwoSubspaces        -- SE2/SE3/Dubins/ReedsShepp type without exactly 2 subspaces
   | badSubspace (idx : Nat) -- "contains a subspace (idx) that is not R^N, SO(2), or SO(3)"
   | unsupportedCompound    -- any other compound space that is not exactly one R^n subspace
+  | notOneOfEach           -- (repair of F451 only) SE-typed compound without one R^n and one SO(n) subspace
   deriving DecidableEq, Repr
 
 def CtorErr.code : CtorErr → Nat
   | .noObjective => 1 | .noStart => 2 | .goalNotSampleable => 3 | .noStartOrGoal => 4 | .unsupportedSpace => 5
-  | .wrapper => 6 | .notTwoSubspaces => 7 | .badSubspace _ => 8 | .unsupportedCompound => 9
+  | .wrapper => 6 | .notTwoSubspaces => 7 | .badSubspace _ => 8 | .unsupportedCompound => 9 | .notOneOfEach => 10
 
 /-- the result of the classification: `isCompound()`, `informedIdx_`, `uninformedIdx_` -/
 structure Layout where
@@ -86,8 +89,13 @@ def scanSubs : List SubType → Nat → Nat → Nat → Except CtorErr (Nat × N
     | .so3 => scanSubs ts (idx + 1) inf idx
     | .other => .error (.badSubspace idx)
 
-/-- the state-space part of the constructor (both indices start at 0) -/
-def classify (d : SpaceDesc) : Except CtorErr Layout :=
+/-- does the subspace list hold a real-vector AND a rotation subspace? -/
+def oneOfEach (subs : List SubType) : Bool :=
+  subs.any (fun t => t == .rv) && subs.any (fun t => t == .so2 || t == .so3)
+
+/-- the state-space part of the constructor (both indices start at 0).  `strict`: the repair proposed for F451 — after the
+scan an SE-typed compound must have produced both an informed (R^n) and an uninformed (SO(n)) subspace. -/
+def classifyG (strict : Bool) (d : SpaceDesc) : Except CtorErr Layout :=
   if !d.compound then
     if d.ty = .realVector then .ok ⟨false, 0, 0⟩
     else if d.ty = .unknown then .ok ⟨false, 0, 0⟩
@@ -97,19 +105,24 @@ def classify (d : SpaceDesc) : Except CtorErr Layout :=
     if d.subs.length ≠ 2 then .error .notTwoSubspaces
     else
       match scanSubs d.subs 0 0 0 with
-      | .ok (i, u) => .ok ⟨true, i, u⟩
+      | .ok (i, u) => if strict && !oneOfEach d.subs then .error .notOneOfEach else .ok ⟨true, i, u⟩
       | .error e => .error e
   else if d.subs.length = 1 ∧ d.subs.head? = some .rv then .ok ⟨true, 0, 0⟩
   else .error .unsupportedCompound
 
+/-- the unchanged code -/
+def classify (d : SpaceDesc) : Except CtorErr Layout := classifyG false d
+
 /-- `InformedSampler::InformedSampler` followed by `PathLengthDirectInfSampler::PathLengthDirectInfSampler` up to the
 classification -/
-def ctorCheck (i : CtorIn) : Except CtorErr Layout :=
+def ctorCheckG (strict : Bool) (i : CtorIn) : Except CtorErr Layout :=
   if !i.hasObjective then .error .noObjective
   else if i.numStarts = 0 then .error .noStart
   else if !i.goalSampleable then .error .goalNotSampleable
   else if i.numStarts < 1 ∨ i.numGoals < 1 then .error .noStartOrGoal
-  else classify i.space
+  else classifyG strict i.space
+
+def ctorCheck (i : CtorIn) : Except CtorErr Layout := ctorCheckG false i
 
 /-- `listPhsPtrs_` order: `for each start i { for each goal j { push_back(PHS(start_i, goal_j)) } }` -/
 def phsPairs {β : Type} (starts goals : List β) : List (β × β) :=
@@ -128,7 +141,7 @@ def FullState.flatten : FullState α → List α
   | .comp cs => cs.flatten
 
 /-- does the glue of the tree under test treat the space as having an uninformed part?  As coded: every compound space;
-repaired (F450): only when the uninformed index differs from the informed one. -/
+current code (fix of F450): only when the uninformed index differs from the informed one. -/
 def Layout.hasUninformedG (fix : Bool) (L : Layout) : Bool :=
   if fix then L.compound && !(L.inf == L.un) else L.compound
 
@@ -149,13 +162,13 @@ def Layout.createFullStateG (fix : Bool) (L : Layout) (st : FullState α) (v r :
       .comp (if L.hasUninformedG fix then cs1.set L.un r else cs1)
     | .flat _ => st
 
-/-- as coded in the unchanged tree -/
+/-- the current code (fix 1d61cd7e5, F450) -/
 def Layout.createFullState (L : Layout) (st : FullState α) (v r : List α) : FullState α :=
-  L.createFullStateG false st v r
-
-/-- the repair proposed for F450 -/
-def Layout.createFullStateFixed (L : Layout) (st : FullState α) (v r : List α) : FullState α :=
   L.createFullStateG true st v r
+
+/-- the code BEFORE 1d61cd7e5 (F450): every compound space has an "uninformed" part.  Kept for the witness. -/
+def Layout.createFullStateOld (L : Layout) (st : FullState α) (v r : List α) : FullState α :=
+  L.createFullStateG false st v r
 
 /-- the factor of `getInformedMeasure`: `uninformedSubSpace_->getMeasure()` when the glue has an uninformed part;
 `subMeasure i` is the measure of subspace `i` -/
